@@ -34,6 +34,8 @@ RULES = {
     "fixes.remove_redundant_else": 1,
     "fixes.fix_if_return": 2,
     "fixes.fix_if_assign": 3,
+    "fixes.swap_if_else": 4,
+    "fixes.delete_unreachable_code": 5,
 }
 
 B = lambda b: ("B", b)  # noqa
@@ -59,13 +61,32 @@ def is_elif(e):
     return len(e) == 1 and e[0][0] == "if"
 
 
-def no_false_if_with_elif(p):
+def no_false_if_with_elif(mods, p):
     """`if <falsy literal>: A elif ...` makes remove_dead_ifs emit unparsable text (a dedented `elif`), which rolls
     back the whole pass: outside the correspondence domain of that rule (the model leaves the node in place)."""
     return not any(s[0] == "if" and tval(s[1]) is False and is_elif(s[3]) for s in M.walk(p))
 
 
-DOMAIN = {"fixes.remove_dead_ifs": no_false_if_with_elif}
+def swap_domain(mods, p):
+    """swap_if_else skips `if`s that _sequential_similar_ifs blacklists (a text-similarity heuristic, not modelled)
+    and rewrites only the FIRST passing implicit if/else candidate in an address-dependent set order: the model
+    covers programs without blacklisted ifs and with at most one passing candidate."""
+    fixes, core = mods["fixes"], mods["core"]
+    src = M.prog_src(p)
+    core.parse.cache_clear()
+    root = core.parse(src)
+    if fixes._sequential_similar_ifs(src, root):
+        return False
+    n = 0
+    for stmt, body, orelse in fixes._iter_implicit_if_elses(root):
+        if orelse and any(core.is_blocking(x) for x in body) and not any(core.is_blocking(x) for x in orelse):
+            continue
+        if orelse and fixes._orelse_preferred_as_body(body, orelse):
+            n += 1
+    return n <= 1
+
+
+DOMAIN = {"fixes.remove_dead_ifs": no_false_if_with_elif, "fixes.swap_if_else": swap_domain}
 
 
 def real_rule(mods, name):
@@ -164,7 +185,31 @@ def fam_if_return_assign(tier):
 # rules whose sites are ordinary if/while shapes: the generic family is used in full also in the quick tier
 GENERIC_SENSITIVE = {"fixes.remove_dead_ifs", "fixes.remove_redundant_else", "fixes.swap_if_else",
                      "fixes.delete_unreachable_code"}
-FAMILIES = {"fixes.fix_if_return": fam_if_return_assign, "fixes.fix_if_assign": fam_if_return_assign}
+def fam_swap(tier):
+    out = []
+    long_b = [EV1, EV2, EV3, ASG]
+    inner = ("if", C2, [RET], [("raise",)])
+    inner2 = ("if", C2, [EV1], [EV2])
+    for t in (C1, ("N", C1), KT):
+        for b in ([("pass",)], [EV1], [RET], long_b, long_b + [RET], [inner], [inner, RET], [inner2, inner2, RET],
+                  [("pass",), EV1], [EV1, ("raise",)]):
+            for e in ([("pass",)], [EV2], [RET], [("raise",), EV1], [inner], [inner2], [RET, EV1, EV2, EV3],
+                      [("if", C3, [EV1], [])]):
+                out.append([("if", t, b, e), EV3])
+                out.append([("for", IK2, [("if", t, b, e)], [])])
+            # implicit if/else: blocking body, no else, followed by the rest of the block
+            for rest in ([RET], [EV1, RET], [("raise",)], [inner], [EV2]):
+                out.append([("if", t, b, [])] + rest)
+                out.append([EV3, ("if", C3, [("if", t, b, [])] + rest, [])])
+    for t in (C1,):
+        out.append([("if", t, [RET], [("if", C2, [("pass",)], [EV1])]), EV3])        # elif that could swap
+        out.append([("if", t, [("if", C2, [("pass",)], [EV1])], [("if", C3, [("pass",)], [EV2])]), EV3])
+        out.append([("while", t, [("if", C2, [("cont",)], [EV1, EV2, EV3, ASG]), EV3], [])])
+        out.append([("while", t, [("if", C2, [EV1, EV2, EV3, ASG], [("break",)]), EV3], [])])
+    return [p for p in out if M.well_formed(p)]
+
+
+FAMILIES = {"fixes.swap_if_else": fam_swap, "fixes.fix_if_return": fam_if_return_assign, "fixes.fix_if_assign": fam_if_return_assign}
 
 
 def rand_test(rnd, known=0.3):
@@ -430,6 +475,14 @@ def match_finding(kf, case):
 # ------------------------------------------------------------------------------------------------
 
 
+class _IdSet:
+    def __init__(self, items):
+        self.ids = {id(x) for x in items}
+
+    def __contains__(self, x):
+        return id(x) in self.ids
+
+
 def check(run: common.Run):
     wd = common.workdir(PID)
     ps = common.proof_step(run, PID, wd)
@@ -444,10 +497,11 @@ def check(run: common.Run):
     exh = fam_generic(run.tier)
     nrand = 250 if quick else 3000
     rnds = [p for p in (rand_prog(rnd) for _ in range(nrand)) if M.well_formed(p)]
+    rnds_set = _IdSet(rnds)
     timing = {}
 
     # ---- semantics validation
-    sem_progs = exh[:: (3 if quick else 1)] + rnds[: (150 if quick else 1500)]
+    sem_progs = exh[:: (5 if quick else 1)] + rnds[: (120 if quick else 1500)]
     sem = sem_cases(sem_progs, rnd, per_prog=4 if quick else 8)
     sem_bad_harness = [c for c in sem if isinstance(c[3], tuple) and c[3] and c[3][0] == "harness-error"]
     sem_ok = [c for c in sem if c not in sem_bad_harness]
@@ -473,22 +527,28 @@ def check(run: common.Run):
     impl_problems = []
     fired = Counter()
     for name, k in RULES.items():
-        dom = DOMAIN.get(name, lambda p: True)
+        dom = DOMAIN.get(name, lambda mods, p: True)
         special = FAMILIES[name](run.tier) if name in FAMILIES else []
         hist[f"special-family:{name}"] = len(special)
-        gen = exh if (not quick or name in GENERIC_SENSITIVE) else exh[::4]
+        gen = exh if (not quick or name in GENERIC_SENSITIVE) else exh[::6]
+        unfired_random = 0
         for p in special + gen + rnds:
-            if not dom(p):
+            if not dom(mods, p):
                 hist[f"outside-domain:{name}"] += 1
                 continue
             src, out, q = fires_and_expected(mods, name, p)
             if isinstance(q, tuple):
                 impl_problems.append({"rule": name, "source": src, "output": out, "problem": q})
                 continue
-            rule_items.append((k, name, p, src, out, q))
             if q != p:
                 fired[name] += 1
                 hist[f"fired:{name}"] += 1
+            elif quick and len(rule_items) >= 0 and p in rnds_set:
+                # quick tier: keep only a quota of random programs on which the rule does nothing
+                unfired_random += 1
+                if unfired_random > 60:
+                    continue
+            rule_items.append((k, name, p, src, out, q))
     files_rule = write_cases(wd, "rule", rule_items,
                              lambda c: f"({c[0]}, {M.g_prog(c[2])}, " + ("None" if c[5] == c[2] else f"Some {M.g_prog(c[5])}") + ")",
                              "nat * list stmt * option (list stmt)", "rule_case_ok")
